@@ -31,6 +31,11 @@ def run(ctx) -> None:
     c01.r8_field_escaping(ctx, "C10.R5")
     r6_pass_through(ctx)
     r7_subquery_finalisation(ctx)
+    # the sub-queries embedded are those of this conversion only if every referenced rule is converted before the
+    # correlation rule that embeds it: the ordering step follows the resolved reference relation (shared with C09.R1)
+    from . import c09
+    from ..util import run_as
+    run_as(ctx, c09.r1_ordering, "C09.R1", "C10.R8", "referenced rules are converted first (their sub-queries are those of this conversion): ")
 
 
 def r1_name_tables(ctx) -> None:
@@ -318,7 +323,9 @@ def _r6_condition_numbers(ctx) -> None:
             return type(n, (Exception,), {})
 
     samples = [({"gt": 0.5, "field": "f"}, 0.5, None), ({"gte": 2}, 2, None), ({"gt": 2.0}, 2, None), ({"lt": 2.75}, 2.75, None),
-               ({"gte": 1, "field": "f", "percentile": 99.9}, 1, 99.9), ({"gte": 1, "field": "f", "percentile": 95}, 1, 95), ({"eq": "3"}, 3, None)]
+               ({"gte": 1, "field": "f", "percentile": 99.9}, 1, 99.9), ({"gte": 1, "field": "f", "percentile": 95}, 1, 95), ({"eq": "3"}, 3, None),
+               ({"gte": 9007199254740993}, 9007199254740993, None), ({"lt": 10 ** 17 + 1}, 10 ** 17 + 1, None),
+               ({"gte": "2.5"}, "<refused>", None), ({"gte": "x"}, "<refused>", None)]
     bad = []
     for d, want_count, want_pct in samples:
         got = {}
@@ -330,14 +337,19 @@ def _r6_condition_numbers(ctx) -> None:
             if nm not in ("from_dict", "to_dict") and not nm.startswith("__"):
                 pass
         it = Interp({"cls": cls, "d": dict(d), "source": None, "SigmaCorrelationConditionOperator": _Op, "sigma_exceptions": _Exc(),
-                     "ValueError": ValueError, "TypeError": TypeError, "OverflowError": OverflowError, "KeyError": KeyError}, max_steps=5000)
+                     "ValueError": ValueError, "TypeError": TypeError, "OverflowError": OverflowError, "KeyError": KeyError}, max_steps=5000,
+                    behaviours=(ValueError, TypeError, OverflowError))
         for nm, m in prog.cls(CQ).methods.items():
             if nm not in ("from_dict", "to_dict") and not nm.startswith("__"):
                 setattr(cls, nm, it._make_function(ast.FunctionDef(name=m.node.name, args=m.node.args, body=m.node.body, decorator_list=[], lineno=m.node.lineno, col_offset=0)))
         try:
             it.call(f.node.body)
         except Raised as ex:
-            bad.append((d, f"refused ({ex})"))
+            if want_count != "<refused>":
+                bad.append((d, f"refused ({ex})"))
+            continue
+        if want_count == "<refused>":
+            bad.append((d, f"accepted as count={got.get('count')!r}; text that is no integer must be refused, not truncated"))
             continue
         if got.get("count") != want_count or type(got.get("count")) is not type(want_count) or got.get("percentile") != want_pct:
             bad.append((d, f"count={got.get('count')!r}, percentile={got.get('percentile')!r}; given {want_count!r} / {want_pct!r}"))
